@@ -305,6 +305,12 @@ func run(p *kernel.Plan) (res *kernel.Result) {
 		}
 		time.Sleep(next - now)
 		syncWait()
+		if src.inStall {
+			// the sampler is parked inside the (slow) source and may hold the
+			// meter's lock: a getter that takes that lock would block on a
+			// sync.Mutex, which the bubble cannot see as blocked; poll later
+			continue
+		}
 		at := time.Since(src.t0)
 		// Average() calls due
 		for nextAvg < len(avgAt) && avgAt[nextAvg] <= at {
@@ -343,8 +349,15 @@ func run(p *kernel.Plan) (res *kernel.Result) {
 			default:
 				wants = []float64{avgOf(*avgBase)}
 			}
-			if firstNZ >= 0 && last.val != 0 {
-				wants = append(wants, avgOf(head{samplerObs[firstNZ].at, samplerObs[firstNZ].val}))
+			if last.val != 0 {
+				// (looked up in the source's log: a sample taken since the last
+				// polling step has not been moved to samplerObs yet)
+				for _, so := range src.log[:li] {
+					if so.sampler && so.val != 0 {
+						wants = append(wants, avgOf(head{so.at, so.val}))
+						break
+					}
+				}
 			}
 			okAvg := false
 			for _, w := range wants {
@@ -373,7 +386,7 @@ func run(p *kernel.Plan) (res *kernel.Result) {
 			// ones only join the history as candidates
 			e := fresh[0]
 			fresh = fresh[1:]
-			if n := len(samplerObs); n >= 1 && firstNZ >= 0 && (int64(e.val-samplerObs[n-1].val) < 0 || e.val == 0) {
+			if n := len(samplerObs); n >= 1 && firstNZ >= 0 && (int64(e.val-samplerObs[n-1].val) < 0 || e.val < samplerObs[n-1].val || e.val == 0) {
 				monotone = false
 			}
 			samplerObs = append(samplerObs, e)
@@ -407,7 +420,9 @@ func run(p *kernel.Plan) (res *kernel.Result) {
 		// is the history so far one the exact rule applies to? (non-decreasing,
 		// no zero after the first non-zero observation, gap-free 10 s sampling)
 		if n := len(samplerObs); n >= 2 && firstNZ >= 0 && n-1 > firstNZ {
-			if int64(o.val-samplerObs[n-2].val) < 0 || o.val == 0 {
+			// (a step across 2^64 is a decrease of the plain value: whether it counts
+			// as growth modulo 2^64 or as going backwards is left open)
+			if int64(o.val-samplerObs[n-2].val) < 0 || o.val < samplerObs[n-2].val || o.val == 0 {
 				monotone = false
 				res.Stat("histories_going_backwards", 1)
 			}
@@ -480,7 +495,12 @@ func run(p *kernel.Plan) (res *kernel.Result) {
 			// holds no backward step, and closing at a sample means reporting the
 			// increase against the observation exactly one window earlier
 			n := len(samplerObs) - 1
-			event := o.val == 0 || (n >= 1 && (int64(o.val-samplerObs[n-1].val) < 0 || samplerObs[n-1].val == 0))
+			event := false // this sample, or one taken within the same polling step
+			for _, ei := range ends {
+				if samplerObs[ei].val == 0 || (ei >= 1 && (int64(samplerObs[ei].val-samplerObs[ei-1].val) < 0 || samplerObs[ei].val < samplerObs[ei-1].val || samplerObs[ei-1].val == 0)) {
+					event = true
+				}
+			}
 			if i == 0 {
 				eventFree++
 				if event || !regular {
@@ -501,6 +521,11 @@ func run(p *kernel.Plan) (res *kernel.Result) {
 				if staleRun[i] >= per && eventFree >= 2*per && okStale {
 					return fail(fmt.Sprintf("C20/rate-overdue:%ds", int(w.w/time.Second)), "window %v after observation (%v, %d): still reports %v; in the last %d gap-free samples, none a backward step, it never reported the increase against the observation one window earlier (now %v)", w.w, o.at, o.val, v, per, rate(samplerObs[n-per].val, o.val, w.w, scale))
 				}
+			}
+			if event && v == 0 {
+				// at a backward step or a zero observation the meter may start over
+				// ("yields 0"): 0 now, and 0 until a full window has passed
+				okFired = true
 			}
 			if !okStale && !okFired {
 				key := "C20/rate-wrong"
